@@ -57,6 +57,66 @@ def strs(xs):
     return cp.lst(xs, cp.string)
 
 
+# ------------------------------------------------------------------ tie of `transient` to the engine class (fails closed)
+MODELLED_FIELDS = {'_id_placeholder', '_protocol_version', '_attribute_policy', '_client_identity', 'is_asynchronous',
+                   '_data_session'}
+MUTATORS = {'append', 'extend', 'update', 'add', 'pop', 'clear', 'remove', 'insert', 'setdefault', 'popitem', 'discard', 'sort', 'reverse'}
+
+
+def engine_mutable_fields(repo):
+    """Attributes of the KmipEngine object that any method other than __init__ assigns, augments, item-assigns or
+    mutates through a container method: what a request can leave behind in the object."""
+    import ast
+    from pathlib import Path
+    tree = ast.parse((Path(repo) / 'kmip/services/server/engine.py').read_text())
+    cls = [n for n in tree.body if isinstance(n, ast.ClassDef) and n.name == 'KmipEngine']
+    if len(cls) != 1:
+        raise ValueError('class KmipEngine not found')
+    found = {}
+
+    def self_attr(node):
+        while isinstance(node, (ast.Subscript, ast.Starred)):
+            node = node.value
+        if isinstance(node, ast.Attribute) and isinstance(node.value, ast.Name) and node.value.id == 'self':
+            return node.attr
+        return None
+
+    def targets_of(t):
+        if isinstance(t, (ast.Tuple, ast.List)):
+            for e in t.elts:
+                yield from targets_of(e)
+        else:
+            yield t
+
+    for fn in ast.walk(cls[0]):
+        if not isinstance(fn, (ast.FunctionDef, ast.AsyncFunctionDef)) or fn.name == '__init__':
+            continue
+        for node in ast.walk(fn):
+            tgts = []
+            if isinstance(node, ast.Assign):
+                tgts = [x for t in node.targets for x in targets_of(t)]
+            elif isinstance(node, (ast.AugAssign, ast.AnnAssign)):
+                tgts = [node.target]
+            elif isinstance(node, (ast.For, ast.AsyncFor)):
+                tgts = list(targets_of(node.target))
+            elif isinstance(node, ast.withitem) and node.optional_vars is not None:
+                tgts = list(targets_of(node.optional_vars))
+            elif isinstance(node, ast.Delete):
+                tgts = node.targets
+            elif isinstance(node, ast.Call) and isinstance(node.func, ast.Attribute) and node.func.attr in MUTATORS:
+                a = self_attr(node.func.value)
+                if a is not None and not a.startswith('_data_session'):
+                    found.setdefault(a, node.lineno)
+            elif (isinstance(node, ast.Call) and isinstance(node.func, ast.Name) and node.func.id == 'setattr' and node.args
+                  and isinstance(node.args[0], ast.Name) and node.args[0].id == 'self'):
+                raise ValueError('setattr() in KmipEngine.%s line %d: cannot tell which field it writes' % (fn.name, node.lineno))
+            for t in tgts:
+                a = self_attr(t)
+                if a is not None:
+                    found.setdefault(a, node.lineno)
+    return found
+
+
 class XRunner(c07.Runner):
     """c07.Runner with the request header options of C11, the Isolation model's terms and the fork comparison."""
 
@@ -445,6 +505,15 @@ def run(ctx):
         'coq/gen/AttrRuleTable.v regenerated from kmip/services/server/policy.py (tie T) for version-dependent attribute visibility']
     ctx.regen(only=['attrrules'])
     ctx.prove('props/C11.v', extra_targets=['theories/Isolation/Cases.v'])
+    try:
+        fields = engine_mutable_fields(ctx.repo)
+        ctx.cov['engine_fields_written_outside_init'] = fields
+        if set(fields) != MODELLED_FIELDS:
+            raise ValueError('KmipEngine methods write %r; the model\'s transient record covers %r' % (
+                sorted(set(fields) ^ MODELLED_FIELDS), sorted(MODELLED_FIELDS)))
+    except Exception as e:      # fail closed: the model may no longer list everything a request leaves behind
+        ctx.broken.append({'kind': 'translation', 'name': 'KmipEngine mutable fields vs Isolation.Model.transient',
+                           'detail': repr(e), 'candidates': []})
 
     histories, all_hits = [], []
     forks = [0]
